@@ -235,7 +235,7 @@ static void t_begin(void)
 
 static void t_end(void)
 {
-	rm_rf(base);
+	if (getenv("VERIF_KEEP_TREE") == NULL) rm_rf(base);
 	for (int i = 0; i < nn; i++) { free(N[i].path); free(N[i].segs); }
 	nn = 0; free(SN); SN = NULL; capsn = 0;
 }
@@ -502,9 +502,16 @@ static void unpack(const char *apath, int flags, int *worstp, int *nfailp)
 		struct archive_entry *e;
 		r = archive_read_next_header(ar, &e);
 		if (r == ARCHIVE_EOF) break;
-		if (r < ARCHIVE_WARN) { worst = worse(worst, r); break; }
+		if (r < ARCHIVE_WARN) {
+			worst = worse(worst, r);
+			fprintf(stderr, "[unpack] next_header: %s\n", archive_error_string(ar) ? archive_error_string(ar) : "?");
+			break;
+		}
 		int x = archive_read_extract2(ar, e, ext);
-		if (x != ARCHIVE_OK) { nfail++; worst = worse(worst, x); }
+		if (x != ARCHIVE_OK) {
+			nfail++; worst = worse(worst, x);
+			fprintf(stderr, "[unpack] extract %s: %s\n", archive_entry_pathname(e), archive_error_string(ar) ? archive_error_string(ar) : "?");
+		}
 		if (x == ARCHIVE_FATAL) break;
 	}
 	worst = worse(worst, archive_write_close(ext));
